@@ -369,7 +369,13 @@ func queueScenario(c *ctxT, r *gen.R) {
 	}
 	close(stop)
 	lg.add(sx.L(sx.S("cb")))
-	q.Close()
+	qclosed := make(chan struct{})
+	go func() { q.Close(); close(qclosed) }()
+	select {
+	case <-qclosed:
+	case <-time.After(5 * time.Second): // Close collects every buffer: it never returns if one was lost
+		lg.add(sx.L(sx.S("stuck-close"), sx.I(0)))
+	}
 	lg.add(sx.L(sx.S("ce")))
 	ch := make(chan struct{})
 	go func() { wg.Wait(); close(ch) }()
